@@ -17,7 +17,8 @@
    One definition per Go method, same order of tests.  Implicit Go faults (index out of range in
    PositionalFromHash / makeValueHash, nil type assertion in createAttributesInfo) are explicit
    `Err EFault`.  Outside the modelled fragment (type parameters, functions, annotations, attribute
-   types other than Integer/String/Boolean/Optional/Array): `Err EOutsideModel`, never generated.
+   types other than Integer/String/Boolean/Optional/Array/Any/Undef/Variant[Undef,T]): `Err EOutsideModel`,
+   never generated.
 
    A Go *objectType points to its parent; the model's objdef contains its parent, so every walk
    along the parent chain is structural recursion (no fuel). *)
@@ -44,6 +45,9 @@ Inductive ty :=
 | TBoolean
 | TOptional (t : ty)
 | TArray (t : ty)
+| TAny                            (* accepts every value, undef included, without being an Optional *)
+| TUndef
+| TVarUndef (t : ty)              (* Variant[Undef, t]: accepts undef without being an Optional *)
 | TObj (n : str)                  (* an Object type referred to by name (only as a parent) *)
 | TOther (s : str).               (* any other type: only its text *)
 
@@ -65,6 +69,9 @@ Fixpoint ty_eqb (a b : ty) : bool :=
   | TBoolean, TBoolean => true
   | TOptional x, TOptional y => ty_eqb x y
   | TArray x, TArray y => ty_eqb x y
+  | TAny, TAny => true
+  | TUndef, TUndef => true
+  | TVarUndef x, TVarUndef y => ty_eqb x y   (* VariantType.Equals: the same set of types; {Undef,x} = {Undef,y} iff x = y *)
   | TObj n, TObj m => str_eqb n m
   | TOther n, TOther m => str_eqb n m
   | _, _ => false
@@ -97,7 +104,8 @@ Fixpoint value_eqb (a b : value) : bool :=
   | _, _ => false
   end.
 
-(* integertype.go IsInstance, stringtype.go, booleantype.go, optionaltype.go, arraytype.go *)
+(* integertype.go IsInstance, stringtype.go, booleantype.go, optionaltype.go, arraytype.go, anytype.go:41,
+   undeftype.go:49, varianttype.go:101 *)
 Fixpoint inst (t : ty) (v : value) : bool :=
   match t with
   | TInteger lo hi => match v with VInt z => (lo <=? z) && (z <=? hi) | _ => false end
@@ -110,20 +118,40 @@ Fixpoint inst (t : ty) (v : value) : bool :=
                    match l with [] => true | x :: r => inst t' x && all r end) l
     | _ => false
     end
+  | TAny => true
+  | TUndef => match v with VUndef => true | _ => false end
+  | TVarUndef t' => match v with VUndef => true | _ => inst t' v end
   | TObj _ | TOther _ => false
   end.
 
-(* IsAssignable on the fragment (integertype.go, optionaltype.go: Optional[a] accepts Optional[b] and b
-   when a accepts b; arraytype.go with default sizes) *)
-Fixpoint asg (a b : ty) : bool :=
-  match a with
-  | TInteger lo hi => match b with TInteger lo' hi' => (lo <=? lo') && (hi' <=? hi) | _ => false end
-  | TString => match b with TString => true | _ => false end
-  | TBoolean => match b with TBoolean => true | _ => false end
-  | TOptional a' => match b with TOptional b' => asg a' b' | _ => asg a' b end
-  | TArray a' => match b with TArray b' => asg a' b' | _ => false end
-  | TObj _ | TOther _ => false
-  end.
+(* IsAssignable on the fragment: types.go:113 GuardedIsAssignable(a, b) — a is Any: true; b is Optional[b']:
+   a accepts Undef and b'; b is Variant[Undef, b']: a accepts every member (allAssignableTo); otherwise
+   a.IsAssignable(b): integertype.go, stringtype.go, booleantype.go, optionaltype.go:95 (Undef accepts b or the
+   contained type does), arraytype.go with default sizes, undeftype.go:44, varianttype.go:92 (some member accepts b) *)
+Definition accepts_undef_ty (a : ty) : bool :=
+  match a with TAny | TUndef | TOptional _ | TVarUndef _ => true | _ => false end.
+Definition is_undef_ty (b : ty) : bool := match b with TUndef => true | _ => false end.
+
+Fixpoint asg (a : ty) : ty -> bool :=
+  fix inner (b : ty) : bool :=
+    match a with
+    | TAny => true
+    | _ =>
+      match b with
+      | TOptional b' | TVarUndef b' => accepts_undef_ty a && inner b'
+      | _ =>
+        match a with
+        | TInteger lo hi => match b with TInteger lo' hi' => (lo <=? lo') && (hi' <=? hi) | _ => false end
+        | TString => match b with TString => true | _ => false end
+        | TBoolean => match b with TBoolean => true | _ => false end
+        | TOptional a' | TVarUndef a' => is_undef_ty b || asg a' b
+        | TArray a' => match b with TArray b' => asg a' b' | _ => false end
+        | TUndef => is_undef_ty b
+        | TAny => true
+        | TObj _ | TOther _ => false
+        end
+      end
+    end.
 
 Definition is_optional_ty (t : ty) : bool := match t with TOptional _ => true | _ => false end.
 
@@ -345,6 +373,8 @@ Definition is_type_name (s : str) : bool :=
 Definition n_integer := Eval compute in s2l "Integer".
 Definition n_string := Eval compute in s2l "String".
 Definition n_boolean := Eval compute in s2l "Boolean".
+Definition n_any := Eval compute in s2l "Any".
+Definition n_undef := Eval compute in s2l "Undef".
 
 (* the text of a type when it is a bare type name (what TypeTypeName admits as a string) *)
 Definition bare_name (t : ty) : option str :=
@@ -352,6 +382,8 @@ Definition bare_name (t : ty) : option str :=
   | TInteger lo hi => if Z.eqb lo min_int64 && Z.eqb hi max_int64 then Some n_integer else None
   | TString => Some n_string
   | TBoolean => Some n_boolean
+  | TAny => Some n_any
+  | TUndef => Some n_undef
   | TObj n => Some n
   | TOther n => if is_type_name n then Some n else None
   | _ => None
@@ -562,7 +594,8 @@ Definition create_attributes_info (all : list attr) (ser : option (list str)) (e
     Ok (new_attributes_info (req ++ opt) (length req) equality)
   | Some names =>
     do attrs <- lookup_all all names;
-    Ok (new_attributes_info attrs (length (filter (fun a => negb (has_value a)) attrs)) equality)
+    (* :1080 (after the fix: 44f64b0): required = no value and not given_or_derived *)
+    Ok (new_attributes_info attrs (length (filter (fun a => negb (is_opt_attr a)) attrs)) equality)
   end.
 
 (* ---------------------------------------------------------------------------------------------- *)
@@ -579,7 +612,8 @@ Fixpoint lookup_def (env : list objdef) (n : str) : option objdef :=
   | d :: r => if str_eqb (d_name d) n then Some d else lookup_def r n
   end.
 
-Definition is_core_name (n : str) : bool := str_eqb n n_integer || str_eqb n n_string || str_eqb n n_boolean.
+Definition is_core_name (n : str) : bool :=
+  str_eqb n n_integer || str_eqb n n_string || str_eqb n n_boolean || str_eqb n n_any || str_eqb n n_undef.
 
 (* text route — types.go:871 NamedType / extractParentName2 / createMetaType2, then objectType.Resolve:
    the parent named in the hash becomes a TypeReference that is resolved before InitFromHash; the
@@ -864,14 +898,20 @@ Definition ctor_named (d : objdef) (h : list (str * value)) : result obj :=
 (* the positional creator :1143, attributeSlice.Initialize (objectvalue.go:89) *)
 Definition ctor_positional (d : objdef) (args : list value) : result obj := Ok (mkObj d args).
 
-(* px.New -> goFunction.Call: the named dispatch is tried first *)
+(* px.New -> goFunction.Call (internal/function.go:316): the dispatchers are tried in order, the named one
+   (one argument that is an instance of the init Struct) first, then the positional one; a single Hash that
+   is not an instance of the init Struct can still be a positional argument (first attribute of type Any) *)
+Definition named_dispatch (info : ainfo) (args : list value) : option (list (str * value)) :=
+  match args with
+  | [VHash h] => if struct_inst (init_struct info) (VHash h) then Some h else None
+  | _ => None
+  end.
+
 Definition new_object (d : objdef) (args : list value) : result obj :=
   let info := d_info d in
-  match args with
-  | [VHash h] =>
-    if struct_inst (init_struct info) (VHash h) then ctor_named d h
-    else Err EIllegalArguments    (* a Hash is not an instance of any attribute type of the fragment *)
-  | _ =>
+  match named_dispatch info args with
+  | Some h => ctor_named d h
+  | None =>
     let ts := map a_type (ai_attrs info) in
     if tuple_inst ts (count_required (ai_attrs info) O (ai_req info)) (length ts) args
     then ctor_positional d args
@@ -956,7 +996,8 @@ Definition obj_eqb (o1 o2 : obj) : result bool :=
 Fixpoint nodup_str (l : list str) : bool :=
   match l with [] => true | x :: r => negb (mem_str x r) && nodup_str r end.
 
-(* the first `req` attributes are required (no value, not given_or_derived), all others optional *)
+(* the first `req` attributes are required (no value, not given_or_derived), all others optional
+   (given_or_derived, with or without a value, or a declared value) *)
 Fixpoint req_prefix (l : list attr) (req : nat) : bool :=
   match l, req with
   | [], O => true
@@ -965,9 +1006,12 @@ Fixpoint req_prefix (l : list attr) (req : nat) : bool :=
   | a :: r, S n => negb (is_opt_attr a) && req_prefix r n
   end.
 
-(* attribute.go:61-72: a given_or_derived attribute has the implicit value undef, a constant has a value *)
+(* attribute.go:61-72: a given_or_derived attribute has no declared value: it carries the implicit value
+   undef when its type is an Optional and no value at all when its type accepts undef otherwise (Any,
+   Variant[Undef, T], Undef); a constant has a value *)
 Definition attr_wf (a : attr) : bool :=
-  (negb (kind_eqb (a_kind a) KGivenOrDerived) || opt_value_eqb (a_value a) (Some VUndef))
+  (negb (kind_eqb (a_kind a) KGivenOrDerived)
+   || match a_value a with None => true | Some v => value_eqb v VUndef end)
   && (negb (kind_eqb (a_kind a) KConstant) || has_value a).
 
 (* the layout invariant of attributesInfo that the constructors, Get, InitHash and Equals rely on *)
